@@ -1,6 +1,7 @@
 import IpaVerif.Model.PrimeField
 import IpaVerif.Generated.PrimeFields
 import IpaVerif.Generated.Dzkp
+import IpaVerif.Generated.DzkpGDiff
 /-!
 Executable model of the DZKP multiplication-proof machinery (property C03):
 
@@ -124,19 +125,25 @@ def interpolateAtR (P : Nat) (den : List Nat) (zkp : List Nat) (r : Nat) : Optio
 def computeSumShare (L : Nat) (zkp : List Nat) : Nat := (zkp.take L).foldl fadd 0
 def computeFinalSumShare (L : Nat) (zkp : List Nat) : Nat := ((zkp.take L).drop 1).foldl fadd 0
 
-/-- `compute_g_differences::<F, P, L, P_FIRST, L_FIRST>`; `none` = panic (no compressed proof, or no challenge). -/
+/-- `compute_g_differences::<F, P, L, P_FIRST, L_FIRST>`; `none` = panic (no compressed proof, or no challenge).
+The links of the two iterator chains and their order are the generated `expectedChain` / `gChain`. -/
 def computeGDifferences (L P Lf Pf : Nat) (firstZkp : List Nat) (zkps : List (List Nat)) (challenges : List Nat)
     (sumOfUv pTimesQ : Nat) : Option (List Nat) := do
   let denF ← denominators Pf
   let den ← denominators P
   let c0 ← challenges.head?
-  let e1 ← interpolateAtR Pf denF firstZkp c0
-  let rest ← (challenges.tail.zip zkps).mapM fun (c, z) => interpolateAtR P den z c
-  let expected := sumOfUv :: e1 :: rest
   let last ← zkps.getLast?
-  let gsums := computeSumShare Lf firstZkp :: (zkps.dropLast.map (computeSumShare L)) ++
-    [computeFinalSumShare L last, pTimesQ]
-  pure ((gsums.zip expected).map fun (g, e) => fsub g e)
+  let expected ← IpaVerif.Generated.DzkpGDiff.expectedChain.mapM fun
+    | .sumOfUv => some [sumOfUv]
+    | .firstAtC0 => (interpolateAtR Pf denF firstZkp c0).map fun e => [e]
+    | .zkpsAtTail => (challenges.tail.zip zkps).mapM fun (c, z) => interpolateAtR P den z c
+  let gsums := IpaVerif.Generated.DzkpGDiff.gChain.map fun
+    | .firstSum => [computeSumShare Lf firstZkp]
+    | .initSums => zkps.dropLast.map (computeSumShare L)
+    | .lastFinalSum => [computeFinalSumShare L last]
+    | .pTimesQ => [pTimesQ]
+  pure ((gsums.flatten.zip expected.flatten).map fun (g, e) =>
+    if IpaVerif.Generated.DzkpGDiff.diffIsGMinusE then fsub g e else fsub e g)
 
 /-- `recursively_compute_final_check::<F, L>` on the first-level values already looked up through
 `table` (`VerifierTableIndices`); `none` = panic. -/
